@@ -1039,3 +1039,72 @@ pub mod verif_update {
         }
     }
 }
+
+/// Verification hook (feature `verif-hooks`): run `Processor::process` - the
+/// session loop that holds the `bgp-in` call site - over a scripted session:
+/// an established session delivers the given UPDATEs and is then lost.
+/// Returns everything the processor sent to its gate, in order. Add-only.
+#[cfg(feature = "verif-hooks")]
+pub async fn verif_filtered_session(
+    roto_function: Option<RotoFunc>,
+    ingress_id: ingress::IngressId,
+    updates: Vec<UpdateMessage<bytes::Bytes>>,
+) -> Vec<Update> {
+    struct ScriptedSession(CombinedConfig, NegotiatedConfig);
+
+    #[async_trait::async_trait]
+    impl BgpSession<CombinedConfig> for ScriptedSession {
+        fn config(&self) -> &CombinedConfig {
+            &self.0
+        }
+        fn connected_addr(&self) -> Option<SocketAddr> {
+            Some("1.2.3.4:179".parse().unwrap())
+        }
+        fn negotiated(&self) -> Option<&NegotiatedConfig> {
+            Some(&self.1)
+        }
+        async fn tick(&mut self) -> Result<(), session::Error> {
+            tokio::time::sleep(std::time::Duration::from_millis(100)).await;
+            Ok(())
+        }
+    }
+
+    let (gate, mut agent) = Gate::new(0);
+    let capture = crate::verif::filter::Capture::attach(&gate, &mut agent).await;
+    let (cmds_tx, _cmds_rx) = mpsc::channel(16);
+    let (pdu_out_tx, _pdu_out_rx) = mpsc::channel(16);
+    let unit_cfg = BgpTcpIn {
+        listen: "127.0.0.1:0".to_string(),
+        my_asn: inetnum::asn::Asn::from_u32(65000),
+        my_bgp_id: [1, 1, 1, 1],
+        peer_configs: Default::default(),
+        filter_name: Default::default(),
+    };
+    let peer_config: super::peer_config::PeerConfig =
+        toml::from_str("name = \"verif\"\nremote_asn = []\n")
+            .expect("peer config");
+    let remote_net =
+        super::peer_config::PrefixOrExact::Exact("1.2.3.4".parse().unwrap());
+    let session = ScriptedSession(
+        CombinedConfig::new(unit_cfg.clone(), peer_config, remote_net),
+        NegotiatedConfig::dummy(),
+    );
+    let mut p = Processor::new(
+        roto_function,
+        gate,
+        unit_cfg,
+        cmds_tx,
+        pdu_out_tx,
+        Default::default(),
+        Default::default(),
+        ingress_id,
+    );
+    let (sess_tx, sess_rx) = mpsc::channel::<Message>(updates.len() + 2);
+    for u in updates {
+        let _ = sess_tx.send(Message::UpdateMessage(u)).await;
+    }
+    let _ = sess_tx.send(Message::ConnectionLost(None)).await;
+    let live_sessions = Arc::new(Mutex::new(std::collections::HashMap::new()));
+    let _ = p.process(session, sess_rx, live_sessions).await;
+    capture.take()
+}
